@@ -169,6 +169,16 @@ static void kdf(void)
         else { ascon_kdf_state_t s; ascon_kdf_init(&s, key, kl, cust, cl, ol); ascon_kdf_squeeze(&s, o, ol); ascon_kdf_free(&s); }
         hx_stat("evaluations", 1);
         if (memcmp(o, e, ol) || !hx_buf_ok(o, ol)) hx_fail(A ? "kdfa:incremental" : "kdf:incremental", "differs from cXOF('KDF'): keylen=%d customlen=%d outlen=%zu pat=%d", kl, cl, ol, pat);
+        if (ol == 33 || ol == 9) {
+            /* declared length 0 = arbitrary-length output: cXOF("KDF", custom, 0) over the key, through init and through reinit */
+            uint8_t e0[48], o0[48];
+            ref_cxof(A, (const uint8_t *)"KDF", 3, cust, cl, 0, key, kl, e0, 40);
+            if (A) { ascon_kdfa_state_t s; ascon_kdfa_init(&s, key, kl, cust, cl, 0); ascon_kdfa_squeeze(&s, o0, 7); ascon_kdfa_squeeze(&s, o0 + 7, 33); ascon_kdfa_reinit(&s, key, kl, cust, cl, 0); ascon_kdfa_squeeze(&s, o0 + 40, 8); ascon_kdfa_free(&s); }
+            else { ascon_kdf_state_t s; ascon_kdf_init(&s, key, kl, cust, cl, 0); ascon_kdf_squeeze(&s, o0, 7); ascon_kdf_squeeze(&s, o0 + 7, 33); ascon_kdf_reinit(&s, key, kl, cust, cl, 0); ascon_kdf_squeeze(&s, o0 + 40, 8); ascon_kdf_free(&s); }
+            hx_stat("evaluations", 1);
+            if (memcmp(o0, e0, 40) || memcmp(o0 + 40, e0, 8)) hx_fail(A ? "kdfa:declared-0" : "kdf:declared-0", "init / reinit with declared length 0 differs from cXOF('KDF', custom, 0): keylen=%d customlen=%d pat=%d", kl, cl, pat);
+            if (A) ascon_kdfa(o0, 0, key, kl, cust, cl); else ascon_kdf(o0, 0, key, kl, cust, cl);   /* a zero-length one-shot request writes nothing */
+        }
         /* re-use: a state used for other parameters (key and custom exchanged, other length), then re-initialised for these ones, split squeeze */
         memset(o, 0xAA, ol);
         if (A) { ascon_kdfa_state_t s; ascon_kdfa_init(&s, cust, cl, key, kl, 17); ascon_kdfa_squeeze(&s, e + 150, 9); ascon_kdfa_reinit(&s, key, kl, cust, cl, ol); ascon_kdfa_squeeze(&s, o, ol / 3); ascon_kdfa_squeeze(&s, o + ol / 3, ol - ol / 3); ascon_kdfa_free(&s); }
